@@ -7,13 +7,21 @@ _DER_TLV = ["ecdsa.der.encode_length", "ecdsa.der.read_length", "ecdsa.der.encod
             "ecdsa.der.remove_sequence", "ecdsa.der.encode_constructed", "ecdsa.der.remove_constructed",
             "ecdsa.der.encode_bitstring", "ecdsa.der.remove_bitstring"]
 
+def _c11_oid(tier, seed):
+    from contracts.der import oid_bounded
+    return oid_bounded(tier, seed)
+
+
 PROPS["C11"] = dict(
     level="other",
     functions=_DER_TLV,
     lemmas=["der.roundtrip_length", "der.roundtrip_integer", "der.roundtrip_octet_string", "der.roundtrip_sequence",
             "der.roundtrip_constructed", "der.roundtrip_bitstring"],
     bounded=[dict(function=q, role="CPython cross-check of a proved contract", bound="structured DER corpus (spec.domains.der_strings)")
-             for q in _DER_TLV],
+             for q in _DER_TLV] +
+            [dict(function="ecdsa.der.remove_object", label="OBJECT IDENTIFIER codec against the X.690 spec encoders", role="bounded stand-in (encode_number, read_number, encode_oid, remove_object are not under a deductive contract)",
+                  bound="sub-identifiers 0..20000 (quick) / 300000 (thorough) + 2^(7k)+-1, 2^64, 2^70, 10^30, 300 random up to 90 bits; 180 structured OIDs (first arcs at the 39/40/47/48 boundaries, arcs up to 2^70) (+3000 random, thorough) x remainders; every single-byte substitution / insertion / truncation, non-minimal length, padded sub-identifier and length overrun of each canonical encoding must be rejected with UnexpectedDER or be canonical itself",
+                  run=_c11_oid)],
     min_obligations=30,
     trusted_base=["byte-string theory axioms of pyvc/sym.py (tested against CPython every run)",
                   "X.690 spec encoders of spec/der.py"],
@@ -120,6 +128,11 @@ def _c17_hist(tier, seed):
     return randrange_histogram(tier, seed)
 
 
+def _c17_seed(tier, seed):
+    from contracts.util import seed_helpers_bounded
+    return seed_helpers_bounded(tier, seed)
+
+
 PROPS["C17"] = dict(
     level="other",
     functions=["ecdsa.util.randrange", "ecdsa.util.randrange_from_seed__overshoot_modulo", "ecdsa.util.randrange_from_seed__trytryagain",
@@ -128,12 +141,15 @@ PROPS["C17"] = dict(
     lemmas=[],
     bounded=[dict(function="ecdsa.util.randrange", label="exact output histogram of randrange", role="bounded stand-in for the uniformity clause",
                   bound="all entropy chunks for orders below 2^8 (quick) / a stride through 2^12 (thorough): every v in [1, n-1] has the same number of pre-images",
-                  run=_c17_hist)],
+                  run=_c17_hist),
+             dict(function="ecdsa.util.randrange_from_seed__trytryagain", label="seed helpers, bits_and_bytes and stream replay on the real code", role="bounded stand-in for the float in bits_and_bytes (modelled as `some bits >= 1`) and CPython cross-check of the replay clause",
+                  bound="orders 2..69 (quick) / 2..599 (thorough) + 2^k+-1 around byte and word boundaries + the 17 curve orders x 4 seeds: both seed helpers total, deterministic, in [1, order-1]; bits_and_bytes gives enough bits; randrange on recorded streams with 0..300 (1000) rejected candidates returns the first in-range candidate and draws one chunk per candidate",
+                  run=_c17_seed)],
     min_obligations=8,
     trusted_base=["byte-string axioms; entropy(k) returns k bytes", "util.PRNG is a deterministic byte stream of its seed (trusted)",
                   "float: bits_and_bytes returns bits >= 1 (exact value not assumed)",
-                  "rejection sampling: equal pre-image counts of equiprobable chunks give a uniform result (counting argument, not mechanised)"],
-    explanation="range, per-iteration single draw of upper_256 bytes and `result = top upper_2 bits of the last chunk + 1` are proved for every order; exact uniformity is the bounded histogram plus the counting argument; determinism is purity (the functions read nothing but their arguments and the stream)",
+                  "rejection sampling: equal pre-image counts of equiprobable chunks give a uniform result (elementary probability, not mechanised); the equal counts themselves are discharged: for every t the chunks giving candidate t are exactly those whose value lies in the t-th interval of 2^w consecutive integers, and every such interval lies inside the chunk space [0, 2^(8*upper_256))"],
+    explanation="range, per-iteration single draw of upper_256 bytes, `result = top upper_2 bits of the last chunk + 1` and the pre-image intervals (every candidate has exactly 2^w consecutive pre-images inside the chunk space) are proved for every order; exact uniformity follows by the elementary step `equal-size classes of a uniform variable, conditioned on acceptance`, and is cross-checked by the exhaustive histogram; determinism is purity (the functions read nothing but their arguments and the stream)",
 )
 
 PROPS["C04"] = dict(
@@ -347,7 +363,7 @@ PROPS["C07"] = dict(
     functions=_MULS + [_PJ + "_add", _PJ + "_double", _PJ + "scale", _PJ + "x", _PJ + "y", _PJ + "double", _PJ + "__add__", _PJ + "from_affine"],
     lemmas=[],
     bounded=[dict(function=_PJ + "__mul__", label="k*P, P*k, mul_add and legacy Point.__mul__ against the k-fold sum", role="bounded stand-in for legacy Point.__mul__; CPython cross-check of the group-level contracts",
-                  bound="toy curves of prime order over F_p, p <= 13 (quick) / 31 (thorough): every k in [-3, 2n+3] x points x {order, no order, generator table, scaled representation}; mul_add for a in [-2, n+2] x 8 structured b x Q in {O, P, -P, others}; structured scalars (0, 1, n-1, n, n+1, 2n, 2n+1, negative, 5n+7, 2^300+1) on NIST256p, secp256k1, brainpoolP160r1",
+                  bound="toy curves of prime order over F_p, p <= 13 (quick) / 31 (thorough): every k in [-3, 2n+3] (legacy Point: [-2n-3, 5n+3]) x points x {order, no order, generator table, scaled representation}, results compared as raw canonical coordinates; mul_add for a in [-2, n+2] x 8 structured b x Q in {O, P, -P, others}; structured scalars (0, 1, n-1, n, n+1, m*n-1 and m*n+1 for m <= 5, negative, 5n+7, 2^300+1, alternating-bit scalars (2^b-1)/3, 2^47-1, 2^64+1) on NIST256p, secp256k1, brainpoolP160r1",
                   run=_c07_b)],
     min_obligations=60,
     trusted_base=["group level: the C06 contracts of _add / _double / scale / x / y / double / __add__ (REP(X, Y, Z, a, b): a valid triple denoting a*P + b*Q; results reduced)",
